@@ -92,6 +92,13 @@ pub fn check(st: &mut Stats, c: &C) {
 pub fn boundary_intervals() -> Vec<i64> {
     let mut v = vec![0, 1, -1, 999_999, 1_000_000, DAY_US - 1, DAY_US, DAY_US + 1, -(DAY_US - 1), -DAY_US, -(DAY_US + 1), 2 * DAY_US, -2 * DAY_US, 12 * H, -12 * H, 7 * DAY_US + 1,
         -7 * DAY_US - 1, 100 * DAY_US, -100 * DAY_US, DT_LIM, -DT_LIM, DT_LIM - 1, 1 - DT_LIM, DT_LIM - DAY_US + 1, 99_999_999 * DAY_US + 12 * H, -(99_999_999 * DAY_US + 12 * H), 6 * H + 1, -(6 * H + 1)];
+    // powers of two +-1 (narrowing casts, shifts)
+    for k in [31u32, 32, 33, 36, 37, 40, 53, 62] {
+        for e in [-1i64, 0, 1] {
+            v.push((1i64 << k) + e);
+            v.push(-(1i64 << k) + e);
+        }
+    }
     v.sort();
     v.dedup();
     v
@@ -127,6 +134,26 @@ pub fn run(ctx: &Ctx, st: &mut Stats) {
     if sstride == 1 {
         st.mark_exhaustive("seconds x {0,1,999999}us x boundary-intervals", &format!("all 86,400 seconds x 3 microsecond values x {} boundary intervals + exact-midnight intervals", ni));
     }
+    // bit-structured times x bit-structured intervals
+    let bts = bit_times();
+    let bts_ref = &bts;
+    let bstep = ctx.tier.pick(499, 1, 1);
+    ctx.par(st, "bit-structured times x (own value, +-2^k intervals)", true, 0, bts.len() as i64 / bstep, |st, i, _| {
+        let t = bts_ref[(i * bstep) as usize];
+        for d in [t, -t, t + 1, t - 1, DAY_US - t, t - DAY_US, t + DAY_US] {
+            if d.abs() <= DT_LIM {
+                st.eval(&C::ab(K::AddSub, t, d), check);
+                st.eval(&C::ab(K::Cmp, t, d), check);
+            }
+        }
+        for k in (0..40u32).step_by(3) {
+            for iv in [1i64 << k, -(1i64 << k)] {
+                st.eval(&C::ab(K::AddSub, t, iv), check);
+                st.eval(&C::ab(K::Cmp, t, iv), check);
+            }
+        }
+        st.eval(&C::ab(K::SubTime, t, bts_ref[(i as usize * 7) % bts_ref.len()]), check);
+    });
     st.stratum("from-interval/boundaries", true);
     for &i in dt_pool().iter().chain(ivs.iter()) {
         st.eval(&C::ab(K::FromDt, i, 0), check);
